@@ -834,3 +834,126 @@ def run_quaternion_angle_axis(ctx: Ctx) -> None:
                 return False, "rotation_matrix_to_angle_axis(M) is not the rotation vector of the quaternion of M"
             return True, ""
         _guard(ctx, "T7.quat-angle-axis", f"w={w},v={[str(x) for x in v]}", fQA, f"unit quaternion w={w} v={[str(x) for x in v]}", th)
+
+
+def run_aliases(ctx: Ctx) -> None:
+    """core/affine.py helpers that wrap the homogeneous algebra, and the plain getters / setters of Translation and HomogeneousTransform."""
+    prog = ctx.prog
+    A, L, S = "deepali.core.affine", "deepali.core.linalg", "deepali.spatial.linear"
+    F_ = {n: prog.func(A, n) for n in ("apply_transform", "transform_points", "transform_vectors", "identity_transform", "translation",
+                                       "rotation_matrix", "euler_rotation_matrix", "affine_rotation_matrix")}
+    for f in F_.values():
+        ctx.fn(f)
+    ctx.rule("T6.helpers", "apply_transform / transform_points / transform_vectors apply A p + t (vectors: A v) for every operand form; "
+                           "identity_transform and translation(offset, homogeneous) build the matrices their names say for offsets of shape "
+                           "(D,), (N, D), (N, D, 1); rotation_matrix is euler_rotation_matrix; affine_rotation_matrix(R Sh S) = R for a rational "
+                           "rotation, an upper-triangular unit shear and positive scales; Translation.offset_ / HomogeneousTransform.matrix_ "
+                           "round-trip through offset() / tensor(); the part getters of the predefined composites return the member that "
+                           "was constructed for that part")
+    for D in (2, 3):
+        def th(D=D):
+            reset_relations()
+            fresh_facts()
+            it = make_interp(ctx)
+            p = STensor.symbols("p", [1, 4, D])
+            for kind in ("translation", "affine", "homogeneous"):
+                a, ra = _operand(kind, D, "a", 1)
+                Aa, ta = ra[0][:, :D], ra[0][:, D]
+                want_p = symt.matmul(p, Aa.t()).add(ta)
+                want_v = symt.matmul(p, Aa.t())
+                if not teq(it.call(F_["apply_transform"], a, p), want_p) or not teq(it.call(F_["transform_points"], a, p), want_p):
+                    return False, f"apply_transform / transform_points with a {kind} operand is not A p + t"
+                if not teq(it.call(F_["apply_transform"], a, p, vectors=True), want_v) or not teq(it.call(F_["transform_vectors"], a, p), want_v):
+                    return False, f"apply_transform(vectors=True) / transform_vectors with a {kind} operand is not A v"
+            I = it.call(F_["identity_transform"], (2, D))
+            Ih = it.call(F_["identity_transform"], 2, D, homogeneous=True)
+            eye = symt.eye(D)
+            if list(I.shape) != [2, D, D] or not all(teq(I[i], eye) for i in range(2)):
+                return False, f"identity_transform((2, {D})) = {tstr(I)[:80]}"
+            if list(Ih.shape) != [2, D, D + 1] or not all(teq(Ih[i], symt.cat([eye, symt.zeros(D, 1)], dim=1)) for i in range(2)):
+                return False, f"identity_transform(2, {D}, homogeneous=True) = {tstr(Ih)[:80]}"
+            for shape in ([D], [2, D], [2, D, 1]):
+                off = STensor.symbols("o", shape)
+                col = off.reshape([-1, D])
+                m = it.call(F_["translation"], off)
+                if list(m.shape) != shape[:-1] + [D, 1] if shape[-1] != 1 else list(m.shape) != shape:
+                    return False, f"translation(offset of shape {shape}) has shape {list(m.shape)}"
+                if not teq(m.reshape([-1, D]), col):
+                    return False, f"translation(offset of shape {shape}) does not hold the offsets"
+                mh = it.call(F_["translation"], off, homogeneous=True).reshape([-1, D, D + 1])
+                for i in range(mh.shape[0]):
+                    if not teq(mh[i], symt.cat([eye, col[i].unsqueeze(1)], dim=1)):
+                        return False, f"translation(offset of shape {shape}, homogeneous=True) item {i} = {tstr(mh[i])[:80]}"
+            return True, ""
+        _guard(ctx, "T6.helpers", f"D={D}:apply", F_["apply_transform"], f"helpers D={D}", th)
+
+    def thr():
+        reset_relations()
+        fresh_facts()
+        it = make_interp(ctx)
+        a, cs = _angles(3)
+        ang = STensor.from_flat(a, [1, 3])
+        for order in ("ZXZ", "XYZ"):
+            if not teq(it.call(F_["rotation_matrix"], ang, order=order), it.call(F_["euler_rotation_matrix"], ang, order=order)):
+                return False, f"rotation_matrix(order={order}) differs from euler_rotation_matrix"
+        # affine_rotation_matrix: M = R Sh S with R from a rational unit quaternion, unit upper-triangular shear, positive scales
+        w, x, y, z = Fraction(1, 3), Fraction(2, 3), Fraction(2, 3), Fraction(0)
+        R = STensor.from_nested([[1 - 2 * (y * y + z * z), 2 * (x * y - z * w), 2 * (x * z + y * w)],
+                                 [2 * (x * y + z * w), 1 - 2 * (x * x + z * z), 2 * (y * z - x * w)],
+                                 [2 * (x * z - y * w), 2 * (y * z + x * w), 1 - 2 * (x * x + y * y)]])
+        Sh = STensor.from_nested([[1, Fraction(1, 2), Fraction(-1, 3)], [0, 1, Fraction(2, 5)], [0, 0, 1]])
+        Sc = symt.diag(STensor.from_flat([2, Fraction(3, 2), Fraction(1, 4)], [3]))
+        M = symt.matmul(symt.matmul(R, Sh), Sc)
+        for Min in (M.unsqueeze(0), symt.cat([M, STensor.from_nested([[5], [6], [7]])], dim=1).unsqueeze(0)):
+            got = it.call(F_["affine_rotation_matrix"], Min)
+            if list(got.shape) != [1, 3, 3] or not teq(got[0], R):
+                return False, f"affine_rotation_matrix(R Sh S) = {tstr(got)[:120]} expected R = {tstr(R)[:120]}"
+        return True, ""
+    _guard(ctx, "T6.helpers", "rotation", F_["affine_rotation_matrix"], "rotation_matrix alias / affine_rotation_matrix", thr)
+
+    Grid = prog.cls("deepali.core.grid", "Grid")
+    for kind in (True, False):
+        def tha(kind=kind):
+            reset_relations()
+            fresh_facts()
+            it = make_interp(ctx)
+            for D in (2, 3):
+                grid = it.new(Grid, size=(3,) * D)
+                t = it.new(prog.cls(S, "Translation"), grid, params=kind)
+                off = STensor.symbols("o", [1, D])
+                it.method(t, "offset_", off)
+                if not teq(it.method(t, "offset"), off) or not teq(it.method(t, "tensor"), off.unsqueeze(-1)):
+                    return False, f"Translation.offset_(o): offset() / tensor() do not return o (D={D})"
+                h = it.new(prog.cls(S, "HomogeneousTransform"), grid, params=kind)
+                m = STensor.symbols("m", [1, D, D + 1])
+                it.method(h, "matrix_", m)
+                if not teq(it.method(h, "tensor"), m):
+                    return False, f"HomogeneousTransform.matrix_(m): tensor() does not return m (D={D})"
+            return True, ""
+        _guard(ctx, "T6.helpers", f"accessors:{'parameter' if kind else 'buffer'}", prog.func(S, "Translation.offset_"),
+               f"Translation / HomogeneousTransform accessors params={'parameter' if kind else 'buffer'}", tha)
+
+    parts = {"RigidTransform": {"rotation": "EulerRotation", "translation": "Translation"},
+             "RigidQuaternionTransform": {"rotation": "QuaternionRotation", "translation": "Translation"},
+             "SimilarityTransform": {"rotation": "EulerRotation", "scaling": "IsotropicScaling", "translation": "Translation"},
+             "AffineTransform": {"rotation": "EulerRotation", "scaling": "AnisotropicScaling", "translation": "Translation"},
+             "FullAffineTransform": {"rotation": "EulerRotation", "scaling": "AnisotropicScaling", "shearing": "Shearing", "translation": "Translation"}}
+    for cname, want in parts.items():
+        def thp(cname=cname, want=want):
+            reset_relations()
+            fresh_facts()
+            it = make_interp(ctx)
+            t = it.new(prog.cls(S, cname), it.new(Grid, size=(3, 3, 3)))
+            members = list(it.method(t, "transforms"))
+            seen = []
+            for part, cls in want.items():
+                m = it.getattr(t, part)
+                if not isinstance(m, tae.ModObj) or m.cls.name != cls:
+                    return False, f"{cname}.{part} is a {getattr(getattr(m, 'cls', None), 'name', type(m).__name__)}, expected {cls}"
+                if not any(m is x for x in members):
+                    return False, f"{cname}.{part} is not one of the members the composite applies"
+                if any(m is s_ for s_ in seen):
+                    return False, f"{cname}.{part} returns the same member as another part getter"
+                seen.append(m)
+            return True, ""
+        _guard(ctx, "T6.helpers", f"parts:{cname}", prog.func(S, f"{cname}.__init__"), f"part getters of {cname}", thp)
